@@ -605,7 +605,7 @@ var interesting = map[string]bool{
 	"c.recvsMu.Lock": true, "c.recvsMu.Unlock": true, "c.recvsMu.RLock": true, "c.recvsMu.RUnlock": true,
 	"c.stateMu.Lock": true, "c.stateMu.Unlock": true, "c.closeOnce.Do": true, "conn.closeOnce.Do": true, "conn.onPacketOnce.Do": true,
 	"c.closed": true, "conn.closed": true, "c.register": true, "c.unregister": true, "c.recv": true, "c.write": true,
-	"conn.Write": true, "conn.write": true, "c.dial": true, "dialer": true, "c.reconnect": true, "c.reconnecting": true, "c.reconnectDial": true,
+	"conn.Write": true, "conn.write": true, "c.conn.Write": true, "c.dial": true, "dialer": true, "c.reconnect": true, "c.reconnecting": true, "c.reconnectDial": true,
 	"c.auth": true, "c.afterReconnected": true, "c.onClose": true, "c.conn.Close": true, "conn.Close": true, "old.Close": true,
 	"conn.conn.Close": true, "conn.DispatchClose": true, "c.Close": true, "c.Do": true, "c.handleResponse": true, "c.handlePush": true,
 	"c.handleControl": true, "c.handlePing": true, "c.handlePong": true, "c.closeByServer": true, "c.isAuthExpired": true,
@@ -989,7 +989,7 @@ func main() {
 	// operation sequences of the client and the transports (T2 "structure": the calls themselves, in source order)
 	for _, fr := range [][2]string{{"client", "Do"}, {"client", "Close"}, {"client", "dial"}, {"client", "reconnecting"}, {"client", "reconnect"},
 		{"client", "reconnectDial"}, {"client", "handleResponse"}, {"client", "register"}, {"client", "unregister"}, {"client", "recv"},
-		{"client", "closeByServer"}, {"client", "onConnClose"}, {"client", "keepalive"}, {"client", "handlePing"}, {"client", "handlePong"},
+		{"client", "closeByServer"}, {"client", "onConnClose"}, {"client", "write"}, {"client", "keepalive"}, {"client", "handlePing"}, {"client", "handlePong"},
 		{"tcpConn", "writing"}, {"tcpConn", "reading"}, {"wsConn", "writing"}, {"wsConn", "reading"}, {"client", "onPacket"}, {"client", "handlePush"}, {"client", "handleControl"},
 		{"tcpConn", "write"}, {"tcpConn", "Close"}, {"tcpConn", "OnPacket"}, {"tcpConn", "addPacket"}, {"tcpConn", "Write"},
 		{"wsConn", "write"}, {"wsConn", "Close"}, {"wsConn", "OnPacket"}, {"wsConn", "addPacket"}, {"wsConn", "Write"}} {
